@@ -272,7 +272,9 @@ pub fn gen_session(rng: &mut Rng, p: &Profile) -> (SessionCfg, Vec<Op>) {
         p.w_char, p.w_word, p.w_pool_line, p.w_backspace, p.w_left, p.w_right, p.w_up, p.w_down, p.w_tab, p.w_enter, p.w_ignored,
         p.w_write, p.w_set_prompt, p.w_motif,
     ];
-    let nkeys = rng.range(p.min_keys, p.max_keys);
+    // mostly short histories (many of them beat one enormous one); now and then a long one, for what only shows after a
+    // buffer has filled up and turned over several times
+    let nkeys = if rng.chance(1) { rng.range(p.max_keys * 5, p.max_keys * 25) } else { rng.range(p.min_keys, p.max_keys) };
     let mut ops: Vec<Op> = Vec::new();
     let push_bytes = |ops: &mut Vec<Op>, rng: &mut Rng, bytes: &[u8]| {
         for (j, &b) in bytes.iter().enumerate() {
